@@ -563,15 +563,25 @@ func checkC17(c *Ctx, rt *rapid.T) {
 		}
 	}
 	gm := NewGroupModel()
+	forceTable := false
 	if g.Chance(1, 2, "groups") {
 		// several configured groups: anything that iterates a map while
 		// printing would show up as run-to-run differences
 		specs := GenGroups(g, w, 4, false)
+		// a family of sibling groups that all match everything, so each has a row
+		n := g.Int(3, 6, "nsiblings")
+		for i := 0; i < n; i++ {
+			specs = append(specs, GroupSpec{Symbol: fmt.Sprintf("fam.%c", 'a'+i), Rules: []GroupRule{{Include: true, Pattern: "refs/"}}})
+		}
 		w.Config.Local = RenderGroups(specs, &g)
+		forceTable = g.Chance(2, 3, "grouptable")
 	}
 	refopts := GenRefOpts(g, w, gm, InvOpts{RefOpts: true, MaxRefOpts: 2})
 	roots := GenRoots(g, w)
 	fixed := FormatArgs(g, "")
+	if forceTable {
+		fixed = []string{"-v"}
+	}
 	fixed = append(fixed, NamesArgs(g, "")...)
 	if g.Chance(1, 2, "verbose") {
 		fixed = append(fixed, "-v")
